@@ -105,9 +105,12 @@ def compare_values(r, exp, max_points=None):
                                           "want": want.tolist()})
         n_ok += 1
     bad = None
+    want_dom = {m: d for m, d in exp["ins"]}
     for n in r.inputs:
-        if n not in {m for m, _ in exp["ins"]}:
+        if n not in want_dom:
             bad = "extra_input:%s" % n
+        elif dom_to_spec(r.inputs[n]) != want_dom[n]:
+            bad = "input_domain:%s" % n           # a lazy result too must declare the right domains
     if bad:
         return ("mismatch", bad, None)
     return ("agree", None, None)
